@@ -200,3 +200,73 @@ def register(reg):
     reg.assumptions_text["A-PURE-EXT"] = "platform.system(), functools.partial(...), anyio.get_cancelled_exc_class() return a value and have no effect"
     reg.add(ModStartServiceTask)
     reg.add(RunApplicationAsync)
+
+
+class RunApplication(FnSpec):
+    """C15: run_application(): configures logging, runs _run_application_async(component_class, config, max_threads, start_timeout) exactly
+    once under anyio.run with the given backend; a falsy status returns normally, a truthy status n leaves through sys.exit(n) (SystemExit
+    carrying exactly n); an exception of the run propagates unchanged."""
+    qual = "_runner.run_application"
+    properties = ("C15",)
+    param_types = {"component_class": ANY, "config": ANY, "backend": ANY, "backend_options": ANY, "max_threads": ANY, "logging": ANY,
+                   "start_timeout": ANY}
+    modifies = "rely"
+    may_raise = True
+    check_guarantee = False
+
+    def requires(self, F):
+        return []
+
+    def _runs(self, F):
+        tr = F.new_st.trace
+        return [e for e in tr if e[0] in ("opaque", "opaque-raise") and "anyio.run" in str(e[4])], [e for e in tr if e[0] == "new_exc"]
+
+    def _common(self, F, runs):
+        out = [("runs-the-application-exactly-once", z3.BoolVal(len(runs) == 1))]
+        for e in runs[:1]:
+            a = e[2]
+            out.append(("runs-the-async-runner-with-the-given-arguments",
+                        z3.And(z3.BoolVal(len(a) >= 5), *([a[0].t == con("func:_runner._run_application_async"), a[1].t == F.t("component_class"),
+                                                          a[2].t == F.t("config"), a[3].t == F.t("max_threads"), a[4].t == F.t("start_timeout")]
+                                                         if len(a) >= 5 else []))))
+            out.append(("passes-backend-and-options", z3.BoolVal(len(a) == 7) if len(a) != 7 else z3.And(a[5].t == F.t("backend"), a[6].t == F.t("backend_options"))))
+        return out
+
+    def local_ensures(self, F):
+        runs, news = self._runs(F)
+        out = self._common(F, runs)
+        if len(runs) == 1 and runs[0][0] == "opaque":
+            out.append(("plain-return-only-for-a-falsy-status", z3.Not(truthy_u_any(F, runs[0][3]))))
+        out.append(("never-exits-itself-on-the-normal-path", z3.BoolVal(not news)))
+        return out
+
+    def local_raises(self, F):
+        runs, news = self._runs(F)
+        out = self._common(F, [r for r in runs]) if runs else []
+        if news:
+            # SystemExit created here: exactly sys.exit(status) for the truthy status returned by the run
+            ok = z3.BoolVal(False)
+            if len(runs) == 1 and runs[0][0] == "opaque" and news[-1][1] == "SystemExit":
+                code = F.new.fld("code", news[-1][2]) if False else None
+                ok = z3.And(truthy_u_any(F, runs[0][3]), F.new_st.ghost.get("exit_code", VNone) == runs[0][3].t)
+            out.append(("exits-with-exactly-the-status-of-the-run", ok))
+        elif runs and runs[0][0] == "opaque-raise":
+            out.append(("an-exception-of-the-run-propagates-unchanged", F.exc.t == runs[0][3].t))
+        return out
+
+    def on_new_exception(self, eng, st, cls, a, args):
+        if cls == "SystemExit":
+            st.ghost = dict(st.ghost)
+            st.ghost["exit_code"] = args[0].t if args else VNone
+
+
+def truthy_u_any(F, v):
+    return F.eng.truth(F.new_st, v)
+
+
+def register_run(reg):
+    def sys_exit(eng, st, pos, kw, node):
+        r = eng.raise_new(st, "SystemExit", pos)
+        return [r]
+    reg.ext_calls["sys.exit"] = sys_exit
+    reg.add(RunApplication)
